@@ -19,13 +19,14 @@ type LimitCase struct {
 	Short     bool   `json:"short,omitempty"` // render `limit n` instead of `limit 0, n`
 	OrderCols []int  `json:"order_cols,omitempty"`
 	R         int    `json:"r"` // intended unlimited result size
+	Pad       int    `json:"pad,omitempty"` // render the numbers zero-padded to this width (decimal all the same)
 }
 
 func (l *LimitCase) limitText() string {
 	if l.Short && l.Off == 0 {
-		return fmt.Sprintf(" limit %d", l.Cnt)
+		return fmt.Sprintf(" limit %0*d", l.Pad, l.Cnt)
 	}
-	return fmt.Sprintf(" limit %d, %d", l.Off, l.Cnt)
+	return fmt.Sprintf(" limit %0*d, %0*d", l.Pad, l.Off, l.Pad, l.Cnt)
 }
 
 func init() {
@@ -137,6 +138,9 @@ func c08Build(r *Rng, p gridPt) *Scenario {
 	}
 	sc := &Scenario{Family: fam, Cfg: Config{Batch: p.b, Cache: r.Bool(), Alias: r.Chance(0.3), Lazy: r.Chance(0.3)}}
 	lc := &LimitCase{Family: fam, Off: p.s, Cnt: p.n, R: p.r, Short: p.s == 0 && r.Bool()}
+	if r.Chance(0.08) {
+		lc.Pad = r.Range(2, 4)
+	}
 	var init []KV
 	noise := func() {
 		// rows inside the scanned region that the filter rejects, so child batches vary in size
@@ -318,7 +322,7 @@ func runC08(sc *Scenario, st *Stats) []Violation {
 	st.Inc("family:" + lc.Family)
 	if strings.HasPrefix(lc.Family, "delete") {
 		h := &sc.Hist[0]
-		h.Pred, h.HasLimit, h.Off, h.Cnt = lc.Base, true, lc.Off, lc.Cnt
+		h.Pred, h.HasLimit, h.Off, h.Cnt, h.Pad = lc.Base, true, lc.Off, lc.Cnt, lc.Pad
 		setKnobs(sc.Cfg)
 		w := NewWorld(sc.Init, sc.Cfg, nil, "c08")
 		prior, _ := w.Core.Dump()
